@@ -1,8 +1,11 @@
 from specs import KEYS, CHECKS, unit
-import os
-_DEV = {'VERIF_KNOWN': os.environ['C05_DEV_KNOWN']} if os.environ.get('C05_DEV_KNOWN') else {}  # DEV ONLY, removed before hand-over
 
 KEYS['keepbalance_c05'] = {'pkg': 'services/keep-balance'}
+
+# The harness allocates many small short-lived objects; with 16 processes on 16
+# cores the default GC settings spend more time in the runtime than in the test.
+_ENV = {'GOGC': '800', 'GOMAXPROCS': '2'}
+_ENV1 = {'GOGC': '800', 'GOMAXPROCS': '1'}
 
 CHECKS['C05'] = {
     'ready': False,
@@ -11,6 +14,12 @@ CHECKS['C05'] = {
     'assumptions': [],
     'units': [
         unit('balance', 'keepbalance_c05', '^TestVerifC05Balance$',
-             {'shards': 16, 'checks': 12500}, {'shards': 16, 'checks': 100000, 'timeout': 1500}, env=_DEV),
+             {'shards': 16, 'checks': 12500}, {'shards': 16, 'checks': 100000, 'timeout': 1500}, env=_ENV),
+        unit('pinned', 'keepbalance_c05', '^TestVerifC05Pinned$',
+             {'shards': 1}, {'shards': 1}, rapid=False, env=_ENV1),
+        unit('enum', 'keepbalance_c05', '^TestVerifC05Enum$',
+             {'shards': 16, 'env': {'C05_ENUM_MAXMOUNTS': 3, 'C05_ENUM_SHARDS': 16}},
+             {'shards': 16, 'timeout': 2400, 'env': {'C05_ENUM_MAXMOUNTS': 4, 'C05_ENUM_SHARDS': 16}},
+             rapid=False, shard_arg=True, env=_ENV1),
     ],
 }
